@@ -14,6 +14,9 @@ func init() {
 	vfHarnesses["C07_linestring"] = vfhC07LineString
 	vfHarnesses["C07_point"] = vfhC07Point
 	vfHarnesses["C07_multipoint_empty_member"] = vfhC07MultiPointEmptyMember
+	vfHarnesses["C07_collection"] = vfhC07Collection
+	vfHarnesses["C07_collection_full"] = vfhC07CollectionFull
+	vfHarnesses["C07_multipolygon_empty_member"] = vfhC07MultiPolygonEmptyMember
 }
 
 // Lemma: the signed varint layer used by the writer (binary.PutVarint) and
@@ -229,5 +232,156 @@ func vfhC07MultiPointEmptyMember() {
 		}
 	}
 	vfAssert(full == 1, "exactly the one non-empty point comes back as coordinates")
+	vfReach("end")
+}
+
+func vfSmallCoords(name string, ct CoordinatesType, precXY, precZ, precM int) Coordinates {
+	c := Coordinates{Type: ct}
+	c.X, c.Y = vfBoundedOrd(name+".x"), vfBoundedOrd(name+".y")
+	vfSmallScaled(c.X, precXY)
+	vfSmallScaled(c.Y, precXY)
+	if ct.Is3D() {
+		c.Z = vfBoundedOrd(name + ".z")
+		vfSmallScaled(c.Z, precZ)
+	}
+	if ct.IsMeasured() {
+		c.M = vfBoundedOrd(name + ".m")
+		vfSmallScaled(c.M, precM)
+	}
+	return c
+}
+
+func vfExpectCoords(c Coordinates, precXY, precZ, precM int) Coordinates {
+	e := Coordinates{Type: c.Type}
+	e.X, e.Y = vfTWKBExpected(c.X, precXY), vfTWKBExpected(c.Y, precXY)
+	if c.Type.Is3D() {
+		e.Z = vfTWKBExpected(c.Z, precZ)
+	}
+	if c.Type.IsMeasured() {
+		e.M = vfTWKBExpected(c.M, precM)
+	}
+	return e
+}
+
+func vfEqCoordsF(a, b Coordinates) bool {
+	eq := vfAnd(a.Type == b.Type, vfAnd(vfEqF(a.X, b.X), vfEqF(a.Y, b.Y)))
+	if a.Type.Is3D() {
+		eq = vfAnd(eq, vfEqF(a.Z, b.Z))
+	}
+	if a.Type.IsMeasured() {
+		eq = vfAnd(eq, vfEqF(a.M, b.M))
+	}
+	return eq
+}
+
+// C07: GeometryCollection(Point, Point-or-empty): sub-writers per member,
+// precisions for Z and M independent, bbox and size headers.
+func vfhC07Collection()     { vfCollection(0, 1, false) }
+func vfhC07CollectionFull() { vfCollection(1, 2, true) }
+
+func vfCollection(precXYHi, precZMHi int, withSize bool) {
+	ct := vfCT("ct")
+
+	precXY := vfInt("precXY", 0, precXYHi)
+	precZ := vfInt("precZ", 0, precZMHi)
+	precM := vfInt("precM", 0, precZMHi)
+	c1 := vfSmallCoords("a", ct, precXY, precZ, precM)
+	secondEmpty := true
+	if withSize {
+		// thorough tier: the second member may be a full Point as well
+		secondEmpty = vfBool("second-empty")
+	}
+	var c2 Coordinates
+	members := []Geometry{NewPoint(c1).AsGeometry()}
+	if secondEmpty {
+		members = append(members, NewEmptyPoint(ct).AsGeometry())
+	} else {
+		c2 = vfSmallCoords("b", ct, precXY, precZ, precM)
+		members = append(members, NewPoint(c2).AsGeometry())
+	}
+	gc := NewGeometryCollection(members).AsGeometry()
+	sizeHdr, bbox := false, vfBool("bbox")
+	if withSize {
+		sizeHdr = vfBool("size")
+	}
+	twkb, err := MarshalTWKB(gc, precXY, vfOpts(sizeHdr, bbox, false, precZ, precM, nil)...)
+	vfAssert(err == nil, "marshal succeeds")
+	g2, err := UnmarshalTWKB(twkb, NoValidate{})
+	vfAssert(err == nil, "unmarshal succeeds")
+	vfAssert(g2.IsGeometryCollection(), "type")
+	vfAssert(g2.CoordinatesType() == ct, "coordinate type survives (the collection contains an ordinate)")
+	out := g2.MustAsGeometryCollection()
+	vfAssert(out.NumGeometries() == 2, "member count")
+	vfAssert(out.GeometryN(0).IsPoint() && out.GeometryN(1).IsPoint(), "member types")
+	d1, ok1 := out.GeometryN(0).MustAsPoint().Coordinates()
+	vfAssert(ok1, "first member non-empty")
+	e1 := vfExpectCoords(c1, precXY, precZ, precM)
+	vfAssert(vfEqCoordsF(d1, e1), "first member: every ordinate at its own precision")
+	d2, ok2 := out.GeometryN(1).MustAsPoint().Coordinates()
+	vfAssert(ok2 == !secondEmpty, "emptiness of the second member")
+	e2 := e1
+	if !secondEmpty {
+		e2 = vfExpectCoords(c2, precXY, precZ, precM)
+		vfAssert(vfEqCoordsF(d2, e2), "second member: every ordinate at its own precision (no reference point leak)")
+	}
+	sz, hasSz, err := UnmarshalTWKBSize(twkb)
+	vfAssert(err == nil && hasSz == sizeHdr, "size header presence")
+	if sizeHdr {
+		vfAssert(sz == len(twkb), "size header tells the truth")
+		vfReach("size")
+	}
+	env, hasBBox, err := UnmarshalTWKBEnvelope(twkb)
+	vfAssert(err == nil && hasBBox == bbox, "bbox header presence")
+	if bbox {
+		mn, mx, ok := env.XYEnvelope.MinMaxXYs()
+		vfAssert(ok, "bbox not empty")
+		loX, hiX, loY, hiY := e1.X, e1.X, e1.Y, e1.Y
+		if !secondEmpty {
+			loX, hiX = vfMinF(e1.X, e2.X), vfMaxF(e1.X, e2.X)
+			loY, hiY = vfMinF(e1.Y, e2.Y), vfMaxF(e1.Y, e2.Y)
+		}
+		vfAssert(vfAnd(vfAnd(vfEqF(mn.X, loX), vfEqF(mx.X, hiX)), vfAnd(vfEqF(mn.Y, loY), vfEqF(mx.Y, hiY))), "bbox header is the envelope of the decoded geometry")
+		vfReach("bbox")
+	}
+	vfReach("end")
+}
+
+func vfMinF(a, b float64) float64 {
+	if a < b {
+		return a
+	}
+	return b
+}
+
+func vfMaxF(a, b float64) float64 {
+	if a > b {
+		return a
+	}
+	return b
+}
+
+// C07 (finding F7): a MultiPolygon with an empty member keeps its coordinate type.
+func vfhC07MultiPolygonEmptyMember() {
+	ct := vfCT("ct")
+	ring := make([]float64, 0, 16)
+	pts := [][2]float64{{0, 0}, {1, 0}, {0, 1}, {0, 0}}
+	for _, p := range pts {
+		ring = append(ring, p[0], p[1])
+		for d := 2; d < ct.Dimension(); d++ {
+			ring = append(ring, 1)
+		}
+	}
+	poly := NewPolygon([]LineString{NewLineString(NewSequence(ring, ct))})
+	polys := []Polygon{poly, Polygon{}.ForceCoordinatesType(ct)}
+	if vfBool("empty-first") {
+		polys[0], polys[1] = polys[1], polys[0]
+	}
+	mp := NewMultiPolygon(polys).AsGeometry()
+	twkb, err := MarshalTWKB(mp, 0)
+	vfAssert(err == nil, "marshal succeeds")
+	g2, err := UnmarshalTWKB(twkb, NoValidate{})
+	vfAssert(err == nil, "unmarshal succeeds")
+	vfAssert(g2.IsMultiPolygon(), "type")
+	vfAssert(g2.CoordinatesType() == ct, "coordinate type survives (the geometry contains ordinates)")
 	vfReach("end")
 }
